@@ -4,8 +4,11 @@ from harness.common import bud
 from harness.props import c01
 
 PROP = "C04"
-MODULES = ["CassisModel.Properties.C04", "CassisModel.Properties.C01", "CassisModel.Properties.C15", "CassisModel.Properties.C04Faithful"]
+MODULES = ["CassisModel.Properties.C04", "CassisModel.Properties.C01", "CassisModel.Properties.C15", "CassisModel.Properties.C04Faithful", "CassisModel.Properties.C04FaithfulColl", "CassisModel.Properties.C04FaithfulJson"]
 THEOREMS = [
+    "Cassis.Xmi.saveXmi_faithful_coll",
+    "Cassis.Json.saveJson_faithful_flat",
+    "Cassis.Json.saveJson_faithful_coll",
     "Cassis.Traverse.findAllFs_closed",
     "Cassis.Traverse.findAllFs_complete",
     "Cassis.Traverse.findAllFs_sound",
